@@ -28,6 +28,7 @@ import Kust.ReplTree
 import Kust.PathDisk
 import Kust.Kv
 import Kust.Subset
+import Kust.RefVar
 import Kust.Gen.Lists
 import Kust.Gen.FieldSpecs
 import Kust.Gen.Lists
@@ -606,6 +607,15 @@ def runMatch (op : String) (a : Json) : Except String Json := do
       (Match.pathMatch (MatchJ.hit ns) ns create path doc)
   | _ => throw s!"unknown match op {op}"
 
+def runRefVar (a : Json) : Except String Json := do
+  let kj := a.getObjValD "known"
+  let mapping : String → String := fun k => match kj.getObjVal? k with
+    | .ok (Json.str v) => v
+    | _ => "$(" ++ k ++ ")"
+  match RefVar.doReplacements mapping (jS a "input") with
+  | .whole n => return Json.mkObj [("whole", Json.str n)]
+  | .text s => return Json.mkObj [("text", Json.str s)]
+
 def runSubset (a : Json) : Except String Json := do
   let cs := csOfJson (a.getObjValD "cs")
   let ref ← idOfJson (a.getObjValD "referrer")
@@ -666,6 +676,7 @@ def dispatch (comp : String) (args : Json) : Except String Json :=
   match comp.splitOn "." with
   | ["fns", op] => runFns op args
   | ["resmap", "subset"] => runSubset args
+  | ["refvar", "expand"] => runRefVar args
   | ["res", op] => runRes op args
   | ["fmt", "nonstring"] => runFmtSchema args
   | ["fmt", op] => runFmt op args
